@@ -16,7 +16,7 @@ func init() {
 	property("C07",
 		"Static conformance of the structural part of format(): (a) conservation — in the main loop of FormatText every non-break word is written to the current line exactly once on every path, every reset of the current line is preceded by flushing it to the output, a break word flushes the line, writes one break code and one newline, the final line is flushed after the loop, and nothing but the word, a single space, the line content, the break codes and the newline byte is ever written; (b) break discipline shape — the automatic break (\\N) and the wrap choose between \\n and \\l by the same predicate over (current line number, numLines), the line number is incremented on every line end and reset by a paragraph break; (c) parameter binding — each named format() parameter reaches the FormatText parameter of the same meaning, font-config fallbacks read the field of the same name under the font id that is passed to FormatText; (d, e) the formatter writes no state and glyph widths are read from the font table by presence; (f) the break-code predicates the other clauses are stated with mean what their names say (isLineBreak = {\\n, \\l, \\p, \\N}, …), every word is scanned in the text whose line breaks were turned into spaces, and the -f / -fc / -l options reach the parser fields of their meaning. NOT decided (runtime arithmetic): that every line fits maxLineLength, that a word moves only when it does not fit, cursor-overlap accounting, and getNextWord's tokenisation.",
 		[]string{"pixel-width arithmetic and getNextWord tokenisation are not decided (DESIGN §6)", "go/ssa lowering is faithful to the source"},
-		"C07.a", "C07.b", "C07.c", "C07.d", "C07.e", "C07.f", "C06.b", "C09.b", "C17.f", "C19.c", "C17.g")
+		"C07.a", "C07.b", "C07.c", "C07.d", "C07.e", "C07.f", "C06.b", "C09.b", "C17.f", "C19.c", "C17.g", "C14.e")
 
 	register(&Rule{ID: "C07.d", Doc: "formatting is a function of (text, font table, parameters): the formatter writes no state; depth counters of the word scanner cannot go negative", Floor: 3, Run: c07d})
 	register(&Rule{ID: "C07.e", Doc: "a width is what the font table says for the glyph when it lists it (also when that is 0), else the font's default, else the fallback: presence decided by the comma-ok bit; cursor room reserved exactly on lines that show the prompt", Floor: 3, Run: c07e})
@@ -491,6 +491,22 @@ func c07c(c *Ctx) {
 				// fallback from the font config
 				okKey := strings.HasPrefix(t, "$0.fonts.Fonts["+fontT+"].") || strings.Contains(t, ".Fonts["+fontT+"]")
 				okField := strings.HasSuffix(t, "."+b.field)
+				// taken exactly when no positive value was given: the guard is "<= 0" (1 is a value
+				// an author can ask for — one line, one pixel — and must not be overridden)
+				if isInstr && okKey && okField {
+					guard := ""
+					for _, l := range c.mustLits(fn, in.Block()) {
+						if strings.HasPrefix(l, "-(") && strings.Contains(l, " < ") && strings.Contains(l, b.name) && !strings.Contains(l, ".Fonts[") {
+							guard = l
+						}
+					}
+					if guard != "" && !strings.HasPrefix(guard, "-(0 < ") {
+						bad = "the font-config fallback for " + b.name + " is taken under " + pretty(guard) + ", expected exactly when the parameter is not positive (-(0 < " + b.name + ")): an explicit positive value would be overridden by the font's"
+					}
+					if guard == "" {
+						bad = "the font-config fallback for " + b.name + " is not guarded by a test that no positive value was given"
+					}
+				}
 				if okKey && okField {
 					fallback = true
 				} else {
@@ -697,6 +713,58 @@ func c07e(c *Ctx) {
 			}
 		}
 		c.Check(n >= 2, "getWidth/table-values", c.W.FuncPos(fn), "glyph width and default width are read from the font table", fmt.Sprintf("found %d returns of a table width in getWidth, expected the glyph's and the default", n))
+	}
+	// (i') the chain from a word to the table: the word is measured character by character (its
+	// runes, not its bytes), every character and every control code is looked up under its own
+	// spelling, with the font that was asked for
+	if gw := c.Fn("parser.FontConfig.getWidth"); gw != nil {
+		if fn := c.Fn("parser.FontConfig.getRunePixelWidth"); fn != nil {
+			calls := callsToIn(fn, gw)
+			ok := len(calls) >= 1
+			for _, ci := range calls {
+				cv, isConv := ci.Common().Args[1].(*ssa.Convert)
+				ok = ok && isConv && cv.X == ssa.Value(fn.Params[1]) && ci.Common().Args[2] == ssa.Value(fn.Params[2])
+			}
+			c.Check(ok, "width-chain/rune-lookup", c.W.FuncPos(fn), "a character is looked up as string(r) in the font asked for", "getRunePixelWidth does not look up string(r) with its own fontID")
+		}
+		if fn := c.Fn("parser.FontConfig.getControlCodePixelWidth"); fn != nil {
+			calls := callsToIn(fn, gw)
+			ok := len(calls) >= 1
+			for _, ci := range calls {
+				ok = ok && ci.Common().Args[1] == ssa.Value(fn.Params[1]) && ci.Common().Args[2] == ssa.Value(fn.Params[2])
+			}
+			c.Check(ok, "width-chain/control-code-lookup", c.W.FuncPos(fn), "a control code is looked up under its own spelling (braces included, as the table lists it)", "getControlCodePixelWidth does not look up the code as it is written, in the font asked for: a code the table lists would get the default width")
+		}
+	}
+	if fn := c.Fn("parser.FontConfig.getWordPixelWidth"); fn != nil {
+		if gr := c.Fn("parser.FontConfig.getRunePixelWidth"); gr != nil {
+			calls := callsToIn(fn, gr)
+			ok := len(calls) >= 1
+			why := "getWordPixelWidth does not measure characters"
+			for _, ci := range calls {
+				// the rune comes from ranging over a string
+				ex, isEx := ci.Common().Args[1].(*ssa.Extract)
+				fromRange := false
+				if isEx && ex.Index == 2 {
+					if nx, isNext := ex.Tuple.(*ssa.Next); isNext && nx.IsString {
+						fromRange = true
+					}
+				}
+				if !fromRange {
+					ok = false
+					why = "the character handed to getRunePixelWidth is " + pretty(c.term(fn, ci.Common().Args[1])) + ", not a rune of a range over the word: a multi-byte character would be measured as several one-byte characters the table does not list"
+				}
+				if ci.Common().Args[2] != ssa.Value(fn.Params[2]) {
+					ok = false
+					why = "characters are measured in another font than the one asked for"
+				}
+				if _, skip := loopSkip(fn, ci.(ssa.Instruction)); skip {
+					ok = false
+					why = "some characters of the word are not measured"
+				}
+			}
+			c.Check(ok, "width-chain/word-by-runes", c.W.FuncPos(fn), "a word is measured rune by rune in the font asked for", why)
+		}
 	}
 	// (ii) cursor room
 	if fn := c.Fn("parser.FontConfig.FormatText"); fn != nil {
